@@ -272,7 +272,7 @@ c03("ser_char_value", T, 8, "one Unicode scalar (all 1 112 064) serialized as ch
 c03("ser_char_str", Q, 8, "one Unicode scalar (all 1 112 064) serialized as a 1-char &str")
 c03("ser_char_key", T, 16, "one Unicode scalar as a map key; length hint symbolic")
 c03("ser_ascii_1", Q, 8, "1 arbitrary ASCII byte as &str", body="crate::p03::ser_ascii::<1>")
-c03("ser_ascii_2", Q, 14, "2 arbitrary ASCII bytes as &str (all adjacencies of escaped/plain bytes)", body="crate::p03::ser_ascii::<2>")
+c03("ser_ascii_2", T, 14, "2 arbitrary ASCII bytes as &str (all adjacencies of escaped/plain bytes)", body="crate::p03::ser_ascii::<2>")
 c03("ser_ascii_3", T, 20, "3 arbitrary ASCII bytes as &str", body="crate::p03::ser_ascii::<3>", timeout=3000)
 c03("ser_str2", T, 14, "string of 0..=2 arbitrary Unicode scalars", timeout=3000)
 for t, n, q in (("u8", 4, Q), ("i8", 4, T), ("u16", 6, T), ("i16", 6, Q), ("u32", 10, T), ("i32", 11, T), ("u64", 20, T), ("i64", 20, T), ("u128", 40, T), ("i128", 40, T)):
@@ -285,13 +285,17 @@ c03("ser_float_finite_f64", T, 26, "every finite f64 bit pattern; ryu::Buffer::f
 c03("ser_shape_scalars", Q, 5, "bool / unit / unit struct / Option<u8> / newtype struct / Option<()> with symbolic leaves")
 c03("ser_shape_products", Q, 19, "tuple / tuple struct / struct{a:u8,b:bool} with symbolic leaves")
 c03("ser_shape_enum", Q, 17, "unit / newtype / tuple / struct enum variant, symbolic choice and leaves")
-c03("ser_shape_empty", Q, 40, "empty struct / tuple struct / struct variant / tuple variant and a struct or struct variant whose Option fields are skipped (symbolic), each followed by a sibling in an enclosing tuple", timeout=2400)
+C03_EMPTY = ["empty struct", "empty tuple struct", "struct variant without fields", "tuple variant without fields", "struct variant with both Option fields skipped",
+             "struct variant with one Option field skipped", "struct with both Option fields skipped", "struct with one Option field skipped"]
+for i, (what, n) in enumerate(zip(C03_EMPTY, (12, 12, 19, 19, 20, 28, 12, 22))):
+    c03("ser_shape_empty_%d" % i, Q if i in (2, 4, 6) else T, n, "%s followed by a symbolic bool sibling in an enclosing tuple" % what, body="crate::p03::ser_shape_empty::<%d>" % i)
 c03("ser_shape_seq", T, 9, "slice of u8 with symbolic length 0..=2")
 c03("ser_shape_seq_str", T, 19, "slice of two 1-byte ASCII strings, symbolic length 0..=2")
 c03("ser_shape_map", T, 27, "map with 0..=2 entries, u8 keys, bool values, length hint present or not")
 c03("ser_shape_bytes", T, 9, "byte array (serialize_bytes) of symbolic length 0..=2")
 c03("ser_shape_nested", T, 50, "struct{Option<tuple struct>, enum, slice<bool>} with symbolic choices", timeout=3000)
-c03("ser_key_accepted", Q, 16, "map key kinds &str / unit variant (incl. a renamed variant needing escapes) / newtype struct around &str")
+for i, what in enumerate(["&str (one symbolic ASCII byte)", "unit variant (incl. a renamed variant whose name needs escapes)", "newtype struct around &str"]):
+    c03("ser_key_accepted_%d" % i, Q if i == 1 else T, 16, "map key kind %s; length hint symbolic" % what, body="crate::p03::ser_key_accepted_k::<%d>" % i, mem=16)
 c03("ser_key_refused", Q, 16, "map key kinds bool, f32, f64, unit, Some, None, bytes, array, struct, newtype variant, unit struct, map")
 
 
